@@ -139,36 +139,60 @@ func exactEngine(args []string) error {
 			fail("arity", fmt.Sprintf("specification has %d inputs / %d outputs, the catalogue %d / %d", len(e.Inputs), len(c.Out), len(desc.Inputs), len(desc.Outputs)))
 			continue
 		}
-		if pm := protect(func() {
-			dims := m.FindDimensions(pArr)
-			if len(dims) > 0 {
-				m.InitialiseDimensions(dims)
+		// the case is run TWICE on the same model object, parameter array and input array (fresh copy of the initial
+		// states, cleared outputs): a model may not use its arguments as scratch space, so the second run must give the
+		// exact values again
+		applied := false
+		for pass := 1; pass <= 2; pass++ {
+			note := ""
+			if pass == 2 {
+				note = " (second run on the same parameter and input arrays)"
+				sArr = data.NewArray2DFloat64(1, ns)
+				for k, v := range e.States {
+					sArr.Set2(0, k, v.f())
+				}
+				oArr = data.NewArray3DFloat64(1, len(desc.Outputs), T)
 			}
-			m.ApplyParameters(pArr)
-			if ns == 0 {
-				if st := m.InitialiseStates(1); st.Len(1) != 0 {
-					sArr = st // stateless in the specification but the model keeps (unused) states
+			if pm := protect(func() {
+				if !applied {
+					dims := m.FindDimensions(pArr)
+					if len(dims) > 0 {
+						m.InitialiseDimensions(dims)
+					}
+					m.ApplyParameters(pArr)
+					applied = true
+				}
+				if ns == 0 {
+					if st := m.InitialiseStates(1); st.Len(1) != 0 {
+						sArr = st // stateless in the specification but the model keeps (unused) states
+					}
+				}
+				m.Run(iArr, sArr, oArr)
+			}); pm != "" {
+				fail("panic", pm+note)
+				break
+			}
+			bad := false
+			for k := range c.Out {
+				for t := 0; t < T; t++ {
+					got, want := oArr.Get3(0, k, t), c.Out[k][t].f()
+					if !nearly(got, want, scale) {
+						fail("output", fmt.Sprintf("output %s[%d] = %v, exact value %v/%v = %v%s", desc.Outputs[k], t, got, c.Out[k][t][0], c.Out[k][t][1], want, note))
+						k = len(c.Out) - 1
+						bad = true
+						break
+					}
 				}
 			}
-			m.Run(iArr, sArr, oArr)
-		}); pm != "" {
-			fail("panic", pm)
-			continue
-		}
-		for k := range c.Out {
-			for t := 0; t < T; t++ {
-				got, want := oArr.Get3(0, k, t), c.Out[k][t].f()
+			for k := range c.St {
+				got, want := sArr.Get2(0, k), c.St[k].f()
 				if !nearly(got, want, scale) {
-					fail("output", fmt.Sprintf("output %s[%d] = %v, exact value %v/%v = %v", desc.Outputs[k], t, got, c.Out[k][t][0], c.Out[k][t][1], want))
-					k = len(c.Out) - 1
+					fail("state", fmt.Sprintf("final state %d = %v, exact value %v%s", k, got, want, note))
+					bad = true
 					break
 				}
 			}
-		}
-		for k := range c.St {
-			got, want := sArr.Get2(0, k), c.St[k].f()
-			if !nearly(got, want, scale) {
-				fail("state", fmt.Sprintf("final state %d = %v, exact value %v", k, got, want))
+			if bad {
 				break
 			}
 		}
